@@ -421,6 +421,8 @@ class SentenceGen:
             return rng.choice(ss)
         t = self.terms.get(name)
         if t is not None and t.pattern.type == 'str':
+            if 'i' in t.pattern.flags and rng.random() < 0.4:
+                return rng.choice([t.pattern.value.upper(), t.pattern.value.capitalize()])     # case-insensitive literals are also written in other cases
             return t.pattern.value
         return None
 
